@@ -319,7 +319,21 @@ def rkStep (f : ℝ → ℝ) (a21 a31 a32 a41 a42 a43 b1 b2 b3 b4 : ℝ) (h a : 
     (½, ½, 1) and weights (1/6, 1/3, 1/3, 1/6), applied to a' = β₀a² + β₁a³ -/
 theorem rk4Step_is_classical_tableau (nf h a : ℝ) :
     rk4Step nf h a = rkStep (fun x => fbeta1 x nf) (1/2) 0 (1/2) 0 0 1 (1/6) (1/3) (1/3) (1/6) h a := by
-  simp only [rk4Step, rkStep, fbeta1]
+  simp only [rk4Step, rkStep]
+  -- stage by stage, with the values of the right-hand side as atoms (expanding the cubic through four stages
+  -- would be a polynomial of degree 81)
+  have e2 : a + 0.5 * (h * fbeta1 a nf) = a + h * (1 / 2 * fbeta1 a nf) := by ring
+  rw [e2]
+  generalize fbeta1 a nf = k1
+  have e3 : a + 0.5 * (h * fbeta1 (a + h * (1 / 2 * k1)) nf) =
+      a + h * (0 * k1 + 1 / 2 * fbeta1 (a + h * (1 / 2 * k1)) nf) := by ring
+  rw [e3]
+  generalize fbeta1 (a + h * (1 / 2 * k1)) nf = k2
+  have e4 : a + h * fbeta1 (a + h * (0 * k1 + 1 / 2 * k2)) nf =
+      a + h * (0 * k1 + 0 * k2 + 1 * fbeta1 (a + h * (0 * k1 + 1 / 2 * k2)) nf) := by ring
+  rw [e4]
+  generalize fbeta1 (a + h * (0 * k1 + 1 / 2 * k2)) nf = k3
+  generalize fbeta1 (a + h * (0 * k1 + 0 * k2 + 1 * k3)) nf = k4
   ring
 
 /-- … and that tableau satisfies all eight order conditions of a fourth-order method (Butcher): with
